@@ -22,23 +22,32 @@ from harness import c04_cases as cc  # noqa: E402
 from harness import c04_monitors as mon  # noqa: E402
 
 CLAIM = {
-    "text": "Unbounded theorems (any number of nodes, any branch list, any flag pattern) about executable Coq models "
-            "of the connectivity search and of the reduction to the active tables: the search marks a node iff it is "
-            "reachable (inductive definition: in-service pressure-fixed start nodes; looked-up, non flow-return-connect "
-            "branches, directed ones only from -> to); branch marks accordingly incl. the flow-return-connect "
-            "post-pass; an unsupplied net fails; cumsum(mask)-1 is an order-preserving bijection of the marked "
-            "positions onto [0,k) that keeps every row and every branch end; index_active lookups map labels to the "
-            "new position or -1; the np.all shortcut equals the general path; the reduced branch pit of a net of "
-            "one-section branches equals the pit of the net with the unmarked rows deleted; write-back leaves NaN "
-            "exactly at unmarked positions. Tied to /repo by exact correspondences on real nets for all 2^k flag "
-            "patterns, evaluated inside Coq; real pipeflow runs are monitored.",
-    "note": "All theorems closed under the global context (no axioms). reduce_eq_delete is proved for nets whose "
-            "branch rows have one section and no pi valves (structural columns); for multi-section pipes and pi "
-            "valves the clause rests on the exhaustive correspondence and the deleted-net monitor (1e-10). scipy "
-            "csgraph.breadth_first_order is modelled by iterated waves (oracle, exercised by every case). "
-            "Latent, unobservable: copy_lookups stores the branch from_to as node_from_to_active; "
-            "branch_index_active of multi-section tables differs between shortcut and general path (both unused).",
-    "technique": "Coq proof over hand-written models + exhaustive flag-pattern correspondence + monitors",
+    "text": "17 theorems (coq/C04/Props.v), all closed under the global context, for any number of nodes, any branch "
+            "list and any flag pattern: the connectivity search marks a node iff it is reachable (inductive definition: "
+            "in-service pressure-fixed start nodes; in-service non flow-return-connect branches, directed ones only "
+            "from -> to), branch marks incl. the flow-return-connect post-pass, the internal consistency error is "
+            "unreachable, the thermal search likewise; the identification fails iff nothing is supplied (empty net "
+            "included); cumsum(mask)-1 is a strictly increasing bijection of the marked positions onto [0,k) that keeps "
+            "every row; index_active and from_to_active lookups; the np.all shortcut equals the general path; every "
+            "kept branch keeps both ends inside the active node pit; for a junction table with any number of "
+            "one-section branch tables the reduced branch pit IS the pit of the net with the unmarked rows deleted; "
+            "write-back leaves NaN exactly at unmarked positions; _restart_connectivity_check is idempotent. The models "
+            "take DIRECTED / FLOW_RETURN_CONNECT from the documented element kinds, and are tied to /repo by exact "
+            "correspondences inside Coq on a fixed corpus plus generated nets under all 2^k in_service / opened / "
+            "control_active patterns (masks or failure, thermal masks, reduced FROM/TO, ELEMENT_IDX, *_index_active, "
+            "*_from_to_active, restart).",
+    "note": "No axioms. PARTIAL: reduce_eq_delete is a theorem for one-section branch tables and the structural columns; "
+            "for multi-section pipes, pi valves (internal / valve nodes) and the physical columns 'unaffected by the "
+            "rest' rests on the exhaustive correspondence of the reduced FROM/TO and on the deleted-net monitor (1e-10, "
+            "second pass 1e-6 / 1e-8 at round-off Newton tolerances; skipped for closed pi valves on kept pipes and "
+            "zero-flow pumps). Termination of the restart loop depends on the components and is not claimed. "
+            "csgraph.breadth_first_order is modelled as the least fixpoint (oracle, exercised by every case). Monitors: "
+            "masks vs reachability, NaN pattern of every res_* table, sole-link matrix (every branch kind, both "
+            "orientations), switched-off supplies next to live ones, no supply => PipeflowNotConverged, any other "
+            "exception on a valid net. Latent and unobservable: copy_lookups stores the branch from_to as "
+            "node_from_to_active; branch_index_active of multi-section tables differs between the two reduce paths.",
+    "technique": "Coq proof over hand-written executable models + exhaustive flag-pattern correspondence inside Coq + "
+                 "monitors",
     "design": "DESIGN.md 4/C04 + design_notes/C04.md",
 }
 GEN = []
